@@ -646,6 +646,50 @@ def module_constants(mod: Module) -> Dict[str, ast.AST]:
     return out
 
 
+_READ_ONLY_METHODS = {"get", "keys", "values", "items", "copy", "index", "count", "__contains__", "__getitem__", "__len__", "__iter__",
+                      "union", "intersection", "difference", "issubset", "issuperset", "isdisjoint"}
+_READ_ONLY_CALLS = {"len", "sorted", "list", "tuple", "set", "dict", "frozenset", "iter", "any", "all", "sum", "min", "max", "enumerate",
+                    "zip", "reversed", "bool", "repr", "str", "isinstance"}
+
+
+def _mutable_literal(v: ast.AST) -> bool:
+    return isinstance(v, (ast.Dict, ast.List, ast.Set)) or (
+        isinstance(v, ast.Call) and isinstance(v.func, ast.Name) and v.func.id in ("set",))
+
+
+def _read_only_use(n: ast.Name, par: Dict[int, ast.AST]) -> bool:
+    """The use of a module-level mutable constant at *n* only reads it (so a copy of the display means the same)."""
+    p = par.get(id(n))
+    if p is None:
+        return False
+    if isinstance(p, ast.Compare):
+        return True
+    if isinstance(p, ast.Subscript) and p.value is n and isinstance(p.ctx, ast.Load):
+        return True
+    if isinstance(p, ast.Attribute) and p.value is n and p.attr in _READ_ONLY_METHODS:
+        g = par.get(id(p))
+        return isinstance(g, ast.Call) and g.func is p
+    if isinstance(p, (ast.For, ast.AsyncFor, ast.comprehension)) and p.iter is n:
+        return True
+    if isinstance(p, ast.Starred):
+        return True
+    if isinstance(p, ast.keyword) and p.arg is None:
+        return True
+    if isinstance(p, ast.Dict) and any(k is None and v is n for k, v in zip(p.keys, p.values)):
+        return True
+    if isinstance(p, ast.BinOp) and isinstance(p.op, (ast.Add, ast.BitOr, ast.BitAnd, ast.Sub, ast.Mult, ast.Mod)):
+        return True
+    if isinstance(p, ast.Call) and any(a is n for a in p.args) and isinstance(p.func, ast.Name) and p.func.id in _READ_ONLY_CALLS:
+        return True
+    if isinstance(p, ast.UnaryOp) and isinstance(p.op, ast.Not):
+        return True
+    if isinstance(p, ast.IfExp) and p.test is n:
+        return True
+    if isinstance(p, (ast.If, ast.While, ast.Assert)) and getattr(p, "test", None) is n:
+        return True
+    return False
+
+
 def _apply_consts(fn: ast.AST, mod: Module) -> None:
     consts = module_constants(mod)
     if not consts:
@@ -653,7 +697,20 @@ def _apply_consts(fn: ast.AST, mod: Module) -> None:
     local = _stored_names(fn) | set(_params(fn))
     mapping = {k: v for k, v in consts.items() if k not in local}
     if mapping:
-        _Subst(mapping).visit(fn)
+        par: Dict[int, ast.AST] = {}
+        for a in ast.walk(fn):
+            for c in ast.iter_child_nodes(a):
+                par[id(c)] = a
+
+        class _ConstSubst(_Subst):
+            def visit_Name(self, node: ast.Name):
+                if isinstance(node.ctx, ast.Load) and node.id in self.mapping and _mutable_literal(self.mapping[node.id]) and not _read_only_use(node, par):
+                    # the one shared object must stay one object: handing it on (argument, return, store) lets the
+                    # receiver keep and mutate it, which a fresh display per use would hide
+                    return node
+                return super().visit_Name(node)
+
+        _ConstSubst(mapping).visit(fn)
 
 
 # ---------------------------------------------------------------------------------------------------------
